@@ -50,8 +50,15 @@ TranscOK(ev) ==
          ELSE IF got.f # FIN \/ got.n THEN FALSE
          ELSE IF IsZero(got.c) \/ Bit(ev.fl, F_UNF) \/ Bit(ev.fl, F_SUBN) THEN ExpUnderflowOK(x.n, x.c, x.e, ev.ctx)
          ELSE ExpOK(x.n, x.c, x.e, got.c, got.e, p)
-    [] ev.op = "ln" -> OutOfNormal(ev) \/ LnOK(x.c, x.e, got.n, got.c, got.e, p)
-    [] ev.op = "log10" -> OutOfNormal(ev) \/ Log10OK(x.c, x.e, got.n, got.c, got.e, p)
+    [] ev.op \in {"ln", "log10"} ->
+         IF got.f = INF \/ Bit(ev.fl, F_OVF)                           \* an overflow claim: the logarithm must really be that large
+         THEN got.f = INF /\ got.n = (CmpMag(x.c, x.e, One, 0) < 0) /\ LogOverflowOK(ev.op = "ln", x.c, x.e, ev.ctx)
+         ELSE IF got.f # FIN THEN FALSE                                 \* the logarithm of a finite positive number is a number
+         ELSE IF IsZero(got.c) \/ Bit(ev.fl, F_SUBN) \/ Bit(ev.fl, F_UNF) \/ Adj(got) < ev.ctx.emin
+         THEN LogTinyOK(ev.op = "ln", x.c, x.e, ev.ctx)                 \* a zero / sub-normal claim: really below 10^Emin
+         ELSE IF Adj(got) > ev.ctx.emax THEN TRUE                       \* C07's business
+         ELSE IF ev.op = "ln" THEN LnOK(x.c, x.e, got.n, got.c, got.e, p)
+         ELSE Log10OK(x.c, x.e, got.n, got.c, got.e, p)
     [] ev.op = "pow" ->
          IF OutOfNormal(ev) THEN TRUE
          ELSE IF IsIntegerD(ev.y) /\ (ev.y.e + NumDigits(ev.y.c) <= 2) /\ Cmp(IntMag(ev.y), <<64>>) <= 0
